@@ -98,6 +98,24 @@ func main() {
 		fmt.Fprintln(os.Stderr, "harness: no suite for", prop)
 		os.Exit(2)
 	}
+	switch prop {
+	case "C01", "C10", "C11", "C17":
+		for _, api := range apis() {
+			errKindScenarios(rep, prop, jsonRaw(), api)
+			if prop == "C10" || prop == "C17" {
+				errKindScenarios(rep, prop, cborRaw(), api)
+			}
+			if prop == "C17" {
+				typedNilClosure(rep, prop, api)
+			}
+		}
+	case "C09":
+		for _, api := range apis() {
+			collectionScenarios(rep, prop, jsonRaw(), api)
+			collectionScenarios(rep, prop, cborRaw(), api)
+			collectionScenarios(rep, prop, jsonBytes(), api)
+		}
+	}
 	runRawPeer(rep, prop)
 	rep.write(*out)
 }
